@@ -232,6 +232,8 @@ pub struct ConnState {
     pub drained_events: u32,
     pub deadline: Option<(u64, u64)>, // (deadline µs, service time µs)
     pub started_us: u64,
+    /// when this connection object came into being (a server connection: when it was accepted)
+    pub created_us: u64,
     pub largest_pn_seen: [Option<u64>; 3],
     pub cc_log: Arc<Mutex<CcLog>>,
     pub dirty: bool,
@@ -672,6 +674,7 @@ impl World {
             drained_events: 0,
             deadline: None,
             started_us: self.now,
+            created_us: self.now,
             largest_pn_seen: [None; 3],
             cc_log,
             dirty: true,
@@ -1566,6 +1569,7 @@ impl World {
                     drained_events: 0,
                     deadline: None,
                     started_us: peer.map_or(self.now, |p| self.conns[p].started_us),
+                    created_us: self.now,
                     largest_pn_seen: [None; 3],
                     cc_log,
                     dirty: true,
